@@ -667,28 +667,25 @@ pub fn collect_protocol_fees(deps: DepsMut) -> Result<Response, ContractError> {
 
     // get the collected protocol fees so far
     let protocol_fees = COLLECTED_PROTOCOL_FEES.load(deps.storage)?;
-    // reset the collected protocol fees
-    COLLECTED_PROTOCOL_FEES.save(
-        deps.storage,
-        &vec![
-            Asset {
-                info: protocol_fees[0].clone().info,
-                amount: Uint128::zero(),
-            },
-            Asset {
-                info: protocol_fees[1].clone().info,
-                amount: Uint128::zero(),
-            },
-        ],
-    )?;
 
     let mut messages: Vec<CosmosMsg> = Vec::new();
+    let mut remaining_protocol_fees: Vec<Asset> = Vec::with_capacity(protocol_fees.len());
     for protocol_fee in protocol_fees {
-        // prevents sending protocol fees if the amount is less than the minimum collectable balance
+        // prevents sending protocol fees if the amount is less than the minimum collectable balance.
+        // Fees that are not sent stay in the ledger so they are still owed to the fee collector.
         if protocol_fee.amount > MINIMUM_COLLECTABLE_BALANCE {
+            remaining_protocol_fees.push(Asset {
+                info: protocol_fee.info.clone(),
+                amount: Uint128::zero(),
+            });
             messages.push(protocol_fee.into_msg(config.fee_collector_addr.clone())?);
+        } else {
+            remaining_protocol_fees.push(protocol_fee);
         }
     }
+
+    // reset the collected protocol fees that were sent
+    COLLECTED_PROTOCOL_FEES.save(deps.storage, &remaining_protocol_fees)?;
 
     Ok(Response::default()
         .add_attribute("action", "collect_protocol_fees")
